@@ -28,10 +28,11 @@ WINDOWS = ("flatten", "leaf", "snapshot", "pushed")
 
 
 class Scheduler:
-    def __init__(self, n, policy, opcode_storage=False, watchdog_s=60.0):
+    def __init__(self, n, policy, opcode_storage=False, watchdog_s=60.0, opcode_all=False):
         self.n = n
         self.policy = policy
-        self.opcode_storage = opcode_storage
+        self.opcode_storage = opcode_storage or opcode_all
+        self.opcode_all = opcode_all
         self.watchdog_s = watchdog_s
         self.sems = [threading.Semaphore(0) for _ in range(n)]
         self.done = threading.Semaphore(0)
@@ -92,7 +93,7 @@ class Scheduler:
     def _gtrace(self, frame, event, arg):
         fn = frame.f_code.co_filename
         if fn.startswith(JT_DIR):
-            if self.opcode_storage and fn.endswith("_storage.py"):
+            if self.opcode_all or (self.opcode_storage and fn.endswith("_storage.py")):
                 frame.f_trace_opcodes = True
             return self._ltrace
         return None
